@@ -78,6 +78,48 @@ static void check_wf(int ncols, int nrows)
 	for (i = 0; i < MAXSZ; i++) if (i >= used && i < A->matsize) ASSERT(A->matind[i] == -1, "C06 wf: the free tail is unused (all -1)");
 	ASSERT(O->nzcount == nz, "C06 view: the nonzero count equals the number of stored coefficients");
 }
+#ifdef FN_addcol
+/* ---- mpq_ILLlib_addcol (lib.c, REAL, with the real static matrix_addcol) from the same start state ----
+ * The new column: cnt <= 1 entries with an arbitrary row index (possibly invalid), arbitrary objective coefficient and
+ * bounds, a name that may collide.  No basis is passed.
+ *   valid := every row index in [0, nrows) and the name is new
+ *   valid  ==> 0, and the problem is the old one plus exactly this structural column (counts, column map, objective,
+ *              bounds, the coefficient given, every old coefficient and datum unchanged, nonzero count, representation invariant)
+ *   !valid ==> non-zero and the observable problem -- counts, rows, coefficients, matrix extents AND the name table -- is unchanged */
+void harness(void)
+{
+	mpq_lpinfo *lp; int rv, cnt, ind[1], vv, j, f, valid = 1, objv = nondet_int(), lov = nondet_int(), upv = nondet_int();
+	mpq_t val[1], obj, lo, up;
+	qsv_init_globals();
+	build();
+	/* room for one more structural column (the growth step by EXTRA_COLS = 100 is not part of this group) */
+	{ int *sm = qsv_alloc(sizeof(int) * (NS + 1)); sm[0] = O->structmap[0]; sm[1] = O->structmap[1]; O->structmap = sm; O->structsize = NS + 1; }
+	O->colnames = qsv_alloc(sizeof(char *) * (NS + 1)); O->colnames[0] = 0; O->colnames[1] = 0; O->colnames[2] = 0; O->intmarker = 0;
+	lp = qsv_mk_lpinfo(O);
+	cnt = pick(0, 1); ind[0] = pick(0, 2) - 1; vv = pick(1, 5); qsv_setnum(val[0], vv);
+	qsv_setnum(obj, objv); qsv_setnum(lo, lov); qsv_setnum(up, upv);
+	g_name_collides = nondet_bool();
+	if ((cnt == 1 && (ind[0] < 0 || ind[0] >= NR0)) || g_name_collides) valid = 0;
+	rv = mpq_ILLlib_addcol(lp, 0, cnt, ind, val, obj, lo, up, "n", 0);
+	ASSERT((rv == 0) == valid, "C07: accepted iff every row index names a row and the name is new");
+	if (rv != 0) {
+		check_wf(NC0, NR0);
+		ASSERT(O->nstruct == NS && O->nzcount == nz0 && g_registered == 0, "C07: a rejected column leaves counts and the name table untouched");
+		for (j = 0; j < NS; j++) { int v = lookup(0, smap[j], &f); ASSERT(f == S[0][j] && (!f || v == D[0][j]) && O->structmap[j] == smap[j], "C07: a rejected column leaves every coefficient and the column map untouched"); }
+	} else {
+		int v;
+		check_wf(NC0 + 1, NR0);
+		ASSERT(O->nstruct == NS + 1 && O->structmap[NS] == NC0 && g_registered == 1 && O->colnames[NS] != 0, "C06: one structural column (and its name) was added as the last internal column");
+		ASSERT(NUMV(O->obj[NC0]) == objv && NUMV(O->lower[NC0]) == lov && NUMV(O->upper[NC0]) == upv, "C06: the new column reports the objective coefficient and bounds given");
+		v = lookup(0, NC0, &f); ASSERT(f == (cnt == 1) && (!f || v == vv) && O->nzcount == nz0 + cnt, "C06: the new column has exactly the coefficient given");
+		for (j = 0; j < NS; j++) { v = lookup(0, smap[j], &f); ASSERT(f == S[0][j] && (!f || v == D[0][j]) && O->structmap[j] == smap[j] && NUMV(O->obj[smap[j]]) == j + 10 && NUMV(O->upper[smap[j]]) == 50 + j, "C06: every old column keeps its coefficients, objective, bounds and place"); }
+		ASSERT(NUMV(O->rhs[0]) == rhs0 && O->sense[0] == sense0 && O->rowmap[0] == (smap[0] == 0 ? 2 : 0), "C06: the row keeps rhs, sense and logical column");
+	}
+	COVER_MUST(rv == 0 && cnt == 1, "added");
+	COVER_MUST(rv != 0 && !g_name_collides, "bad_row_index");
+	REACH_END();
+}
+#else
 void harness(void)
 {
 	mpq_lpinfo *lp; int rv, cnt, ind[2], vv[2], i, j, f, valid = 1, need = 0;
@@ -128,4 +170,5 @@ void harness(void)
 #endif
 	REACH_END();
 }
+#endif
 QSV_MAIN(harness)
